@@ -484,6 +484,53 @@ func genSplice(g *vh.Gen) string {
 	}
 }
 
+// genBackground: URL-valued attributes other than href/src/cite (background, poster, action,
+// formaction, longdesc, ping, data, srcset, xlink:href, manifest, codebase, lowsrc, dynsrc, icon,
+// usemap) on table elements and others, with script-scheme values that ALSO hold an innocent
+// looking reference (cid:, http://, https://) somewhere, the way an unanchored alternation in a
+// value pattern would be satisfied.
+func genBackground(g *vh.Gen) string {
+	el := g.Pick("td", "td", "table", "tr", "th", "tbody", "div", "body", "img", "video", "a", "form", "input", "object")
+	attr := g.Pick("background", "background", "background", "BACKGROUND", "poster", "action", "formaction", "longdesc", "ping", "data", "srcset",
+		"xlink:href", "manifest", "codebase", "lowsrc", "dynsrc", "icon", "usemap", "cite", "src", "href")
+	js := g.Pick("javascript:alert(1)", "JavaScript:alert(1)", "java\tscript:alert(1)", " javascript:alert(1)", "&#106;avascript:alert(1)", "vbscript:msgbox(1)",
+		"javascript&colon;alert(1)", "data:text/html,<script>alert(1)</script>")
+	tail := g.Pick("//cid:x", "//CID:logo", ";'cid:'", "/*cid:*/", "//http://x/", "//https://ok.example/a.png", "#cid:1", "?cid:", "", "//cid:x\nhttp://y/")
+	v := js + tail
+	if g.Chance(0.15) {
+		v = g.Pick("cid:logo", "http://ok/a.png", "https://ok/a.png", "HTTP://OK/", "cid:", "//evil/x", "ftp://cid:x") // harmless or other shapes
+	}
+	q := g.Pick("\"", "\"", "'")
+	v = strings.ReplaceAll(v, q, "&#34;")
+	extra := g.Pick("", "", " width=\"10\"", " style=\"color:red\"", " "+attr+"=\"http://second/\"")
+	return g.Pick("", "<table>", "<table><tr>") + "<" + el + extra + " " + attr + "=" + q + v + q + g.Pick(">", ">", "/>") + "x</" + el + ">"
+}
+
+// genNFC: code points a Unicode normalisation (NFC) of the OUTPUT would turn into syntax: the
+// Greek question mark U+037E (canonically the semicolon), U+1FEF (the grave accent / backtick),
+// the Kelvin sign U+212A (K), and the combining long solidus overlay U+0338 / other combining
+// marks right after a greater-than, less-than, equals sign or quote (greater-than + U+0338
+// composes to U+226F: the tag no longer ends there and the text after it is read as attributes).
+func genNFC(g *vh.Gen) string {
+	comb := g.Pick("\u0338", "\u0338", "\u0338", "\u0301", "\u20d2", "\u0307", "\u0338\u0338")
+	gq := g.Pick("\u037e", "\u037e", "&#x37e;", "&#894;", "\u037e ", "\u1fef", "\u212a")
+	tag := g.Pick("p", "div", "span", "td", "b", "center")
+	bad := g.Pick("position:fixed", "z-index:9", "behavior:url(x)", "top:0", "background:url(//e/x)")
+	switch g.Intn(6) {
+	case 0, 1: // separator inside a style value
+		return "<" + tag + " style=\"" + g.Pick(allowedProps...) + ":" + g.Pick("red", "1px", "none") + gq + bad + g.Pick("", ";", gq+"left:0") + "\">x</" + tag + ">"
+	case 2: // text directly after a start tag begins with a combining mark and reads like attributes
+		return "<" + tag + g.Pick("", " title=\"t\"", " class=\"c\"") + ">" + comb + g.Pick(" onclick=alert(1) ", " onmouseover=\"alert(1)\" ", " style=\"position:fixed\" ", " href=javascript:alert(1) ") +
+			g.Pick("x=\"", "", "y") + g.Pick(">z", "", "<b>z</b>") + "</" + tag + ">"
+	case 3: // after other syntax bytes
+		return "<" + tag + " title=\"a\"" + comb + " style=" + comb + "\"color:red\"><" + comb + "script>alert(1)</script>=" + comb + "</" + tag + ">" + comb
+	case 4: // inside attribute values and URLs
+		return "<a href=\"http://x/" + gq + "\" title=\"" + gq + comb + "\">" + gq + "</a><img alt=\"a\"" + comb + " src=\"http://x/" + comb + "\">"
+	default: // decomposed ordinary text (must stay fine) around tags
+		return "<" + tag + ">e\u0301 a\u030a</" + tag + ">" + comb + "<" + tag + " style=\"color:red\">n\u0303>" + comb + "</" + tag + ">"
+	}
+}
+
 // genLong builds a document holding ONE very long token of about n bytes (kind selects which
 // token kind). Total size never mattered to the sanitiser; a single huge token exercises the
 // tokenizer's buffering (sanitising must never fail: C18's last clause). nl > 0 inserts a line
@@ -602,8 +649,12 @@ func gen(g *vh.Gen) {
 			s = mutate(g, genHTML(g), "<>\"'=/ &;\x00")
 		case i%10 >= 6:
 			s = genStyled(g)
-		case i%10 == 5 && i%20 == 5:
+		case i%10 == 5 && (i/10)%4 == 0:
 			s = genSplice(g)
+		case i%10 == 5 && (i/10)%4 == 1:
+			s = genBackground(g)
+		case i%10 == 5 && (i/10)%4 == 2:
+			s = genNFC(g)
 		case i%10 == 5:
 			s = genDoubleEnc(g)
 		case i%10 >= 3:
@@ -641,7 +692,14 @@ func gen(g *vh.Gen) {
 		case 2:
 			h = genDoubleEnc(g)
 		case 3:
-			h = genSplice(g)
+			switch (i / 5) % 3 {
+			case 0:
+				h = genSplice(g)
+			case 1:
+				h = genBackground(g)
+			default:
+				h = genNFC(g)
+			}
 		default:
 			h = genStyled(g)
 		}
